@@ -303,7 +303,11 @@ type msg struct {
 	r      int
 	b      int // block id, -1 = nil
 	pol    int
-	ok     bool
+	ok     bool // the message verifies for validator `sender`
+	// votes only: whose address the vote carries, whose key signed it (-1 = sender's), and whether the
+	// signature is intact; ok = sigok && addr == sender && key == sender
+	addr, key int
+	sigok     bool
 }
 
 func bidStr(b int) string {
@@ -336,7 +340,7 @@ func (p *recPV) SignVote(chain string, v *tmproto.Vote) error {
 			t = "pc"
 		}
 		id, _ := types.BlockIDFromProto(&v.BlockID)
-		p.nd.signed(msg{sender: p.nd.idx, t: t, r: int(v.Round), b: p.nd.net.bidIndex(*id), ok: true})
+		p.nd.signed(msg{sender: p.nd.idx, t: t, r: int(v.Round), b: p.nd.net.bidIndex(*id), ok: true, addr: p.nd.idx, key: p.nd.idx, sigok: true})
 	}
 	return err
 }
@@ -344,7 +348,7 @@ func (p *recPV) SignProposal(chain string, pr *tmproto.Proposal) error {
 	err := p.inner.SignProposal(chain, pr)
 	if err == nil && pr.Height == 1 {
 		id, _ := types.BlockIDFromProto(&pr.BlockID)
-		p.nd.signed(msg{sender: p.nd.idx, prop: true, r: int(pr.Round), b: p.nd.net.bidIndex(*id), pol: int(pr.PolRound), ok: true})
+		p.nd.signed(msg{sender: p.nd.idx, prop: true, r: int(pr.Round), b: p.nd.net.bidIndex(*id), pol: int(pr.PolRound), ok: true, addr: p.nd.idx, key: p.nd.idx, sigok: true})
 	}
 	return err
 }
@@ -664,13 +668,14 @@ func (nd *node) deliverMsg(m msg, peer int) string {
 		return nd.node.HandleProposal(p, peerID(peer))
 	}
 	t, _ := vtype(m.t)
+	// the vote claims slot `sender`, carries the address of validator `addr` and is signed by `key`
 	vote := &types.Vote{Type: t, Height: 1, Round: int32(m.r), BlockID: nt.blockID(m.b), Timestamp: genesisTime.Add(time.Second),
-		ValidatorIndex: int32(m.sender), ValidatorAddress: key.PubKey().Address()}
-	sig, err := key.Sign(types.VoteSignBytes(chainID, vote.ToProto()))
+		ValidatorIndex: int32(m.sender), ValidatorAddress: nt.w.keys[m.addr%n].PubKey().Address()}
+	sig, err := nt.w.keys[m.key%n].Sign(types.VoteSignBytes(chainID, vote.ToProto()))
 	if err != nil {
 		panic(err)
 	}
-	if !m.ok {
+	if !m.sigok || m.key >= n || m.addr >= n {
 		sig[3] ^= 0x40
 	}
 	vote.Signature = sig
@@ -788,7 +793,7 @@ func (nt *netSim) apply(op string) string {
 		if !ok2 {
 			return "bad-op"
 		}
-		m := msg{sender: sender, r: r, ok: oks == "1"}
+		m := msg{sender: sender, r: r, ok: oks == "1", addr: sender, key: sender, sigok: oks == "1"}
 		kind, _ := kvGet(rest, "kind")
 		switch kind {
 		case "prop":
@@ -808,6 +813,20 @@ func (nt *netSim) apply(op string) string {
 				return "bad-op"
 			}
 			m.t, m.b = ts, b
+			// optional: the address the vote carries and the key that signed it (default: the sender's)
+			for _, f := range []struct {
+				k   string
+				dst *int
+			}{{"addr", &m.addr}, {"key", &m.key}} {
+				if _, present := kvGet(rest, f.k); present {
+					x, okx := natKey(rest, f.k)
+					if !okx {
+						return "bad-op"
+					}
+					*f.dst = x
+				}
+			}
+			m.ok = m.sigok && m.addr == sender && m.key == sender
 		default:
 			return "bad-op"
 		}
